@@ -39,7 +39,11 @@ func VerifC02_FetchBlock() {
 		}
 		return vResp(status, body), nil
 	}}
-	s := &Syncer{client: &http.Client{Transport: rt}, rootURL: vURL("http://pub.example/ipni/v1/ad"), sync: &Sync{lsys: vLsys(st)}}
+	lsys := vLsys(st)
+	// "trusted storage" means: do not re-hash what is read back from the local
+	// store. It says nothing about bytes arriving from the network.
+	lsys.TrustedStorage = verif_Bool("trustedStorage")
+	s := &Syncer{client: &http.Client{Transport: rt}, rootURL: vURL("http://pub.example/ipni/v1/ad"), sync: &Sync{lsys: lsys}}
 
 	ferr := s.fetchBlock(context.Background(), c)
 	verif_Reach("fetched")
